@@ -305,3 +305,330 @@ Section Argspec.
     rewrite (HA p (or_introl eq_refl)). reflexivity.
   Qed.
 End Argspec.
+
+(* ---- from_func ------------------------------------------------------------------------------------ *)
+Lemma from_func_good f : wf_func f ->
+  exists b, from_func f = Ok b /\ good b /\ fb_sig b = func_sig f /\
+            fb_name b = f_name f /\ fb_doc b = match f_doc f with Some d => d | None => 0 end /\
+            fb_module b = f_module f /\ fb_async b = f_async f.
+Proof.
+  intros [ND NZ L]. unfold from_func. rewrite (sig_of_func_sig f L). eexists. split; [reflexivity|].
+  unfold func_sig.
+  set (an := d_get (f_annotations f)). set (kwd := odflt (f_kwdefaults f)).
+  set (args := f_args f) in *. set (D := odflt (f_defaults f)) in *.
+  set (va := f_varargs f). set (kwonly := f_kwonly f). set (vk := f_varkw f).
+  assert (NDk : NoDup kwonly).
+  { unfold func_names in ND. fold args va kwonly vk in ND.
+    apply NoDup_app_r in ND. apply NoDup_app_r in ND. apply NoDup_app_l in ND. exact ND. }
+  (* the names, as all_names sees them *)
+  assert (EN : all_names
+     (mkFB (f_name f) (match f_doc f with Some d => d | None => 0 end) (f_module f)
+        (argspec_args (mk_sig an args D va kwonly kwd vk))
+        (argspec_var VarPos (mk_sig an args D va kwonly kwd vk))
+        (argspec_var VarKw (mk_sig an args D va kwonly kwd vk))
+        (argspec_defaults (mk_sig an args D va kwonly kwd vk))
+        (argspec_kwonly (mk_sig an args D va kwonly kwd vk))
+        (argspec_kwdefaults (mk_sig an args D va kwonly kwd vk))
+        (argspec_annotations (mk_sig an args D va kwonly kwd vk)) (f_async f)) = func_names f).
+  { unfold all_names, func_names. cbn [fb_args fb_varargs fb_kwonly fb_varkw].
+    rewrite argspec_args_eq, argspec_varpos_eq, argspec_kwonly_eq, argspec_varkw_eq by exact L. reflexivity. }
+  assert (R0 : forall x, In x (func_names f) ->
+               ~ In x (dkeys (match an RET with Some a => [(RET, a)] | None => [] end))).
+  { intros x Hx. destruct (an RET); simpl; [|intros []]. intros [E|[]]. apply NZ. unfold RET in E. rewrite E. exact Hx. }
+  split; [|split; [|repeat split]].
+  - constructor.
+    + rewrite EN. exact ND.
+    + rewrite EN. exact NZ.
+    + cbn [fb_defaults fb_args]. rewrite argspec_defaults_eq, argspec_args_eq by exact L. exact L.
+    + cbn [fb_kwdefaults fb_kwonly]. rewrite argspec_kwdefaults_eq, argspec_kwonly_eq.
+      intros x Hx. apply d_update_keys in Hx as [[]|Hx]. apply tab_keys_incl in Hx. exact Hx.
+    + cbn [fb_kwdefaults]. rewrite argspec_kwdefaults_eq. apply d_update_nodup. constructor.
+    + cbn [fb_annotations]. rewrite argspec_annotations_eq. apply d_update_nodup.
+      destruct (an RET); simpl; [constructor; [intros []|constructor] | constructor].
+    + intros x Hx. rewrite EN. cbn [fb_annotations] in Hx. rewrite argspec_annotations_eq in Hx.
+      apply d_update_keys in Hx as [Hx|Hx].
+      * left. destruct (an RET); simpl in Hx; [destruct Hx as [<-|[]]; reflexivity | contradiction].
+      * right. apply tab_keys_incl in Hx. exact Hx.
+  - (* the signature is the same *)
+    unfold fb_sig. cbn [fb_annotations fb_args fb_defaults fb_varargs fb_kwonly fb_kwdefaults fb_varkw].
+    rewrite argspec_args_eq, argspec_varpos_eq, argspec_kwonly_eq, argspec_varkw_eq, argspec_defaults_eq by exact L.
+    rewrite argspec_kwdefaults_eq, argspec_annotations_eq.
+    unfold mk_sig. f_equal.
+    + apply mk_params_ext.
+      * intros x Hx. apply tab_get; [exact ND | exact Hx | apply R0; exact Hx].
+      * intros k Hk. apply tab_get; [exact NDk | exact Hk | intros []].
+    + rewrite tab_get_other by (intro Hx; apply NZ; exact Hx).
+      destruct (an RET) eqn:E; simpl; [reflexivity | reflexivity].
+Qed.
+
+(* ---- what the Spec's tests see on fb_sig ------------------------------------------------------------ *)
+Lemma existsb_map {A C} (f : C -> bool) (g : A -> C) l : existsb f (map g l) = existsb (fun x => f (g x)) l.
+Proof. induction l as [|x r IH]; simpl; [reflexivity|]. rewrite IH. reflexivity. Qed.
+
+Lemma existsb_ext_in {A} (f g : A -> bool) l : (forall x, In x l -> f x = g x) -> existsb f l = existsb g l.
+Proof.
+  induction l as [|x r IH]; simpl; intro H; [reflexivity|].
+  rewrite (H x (or_introl eq_refl)). f_equal. apply IH. intros y Hy. apply H. right. exact Hy.
+Qed.
+
+Lemma existsb_olist_false {A C} (f : C -> bool) (g : A -> C) o :
+  (forall x, f (g x) = false) -> existsb f (map g (olist o)) = false.
+Proof. intro H. destruct o; simpl; [rewrite H|]; reflexivity. Qed.
+
+Lemma pos_named an args skip D n :
+  existsb (is_named n) (pos_params an args skip D) = mem n args.
+Proof.
+  rewrite <- (pos_params_names an args skip D) at 2. unfold mem. rewrite existsb_map. reflexivity.
+Qed.
+
+Lemma removable_exists b n :
+  existsb (removable n) (sg_params (fb_sig b)) = mem n (fb_args b) || mem n (fb_kwonly b).
+Proof.
+  unfold fb_sig, mk_sig, mk_params. cbn [sg_params]. rewrite !existsb_app.
+  rewrite (existsb_ext_in (removable n) (is_named n) (pos_params _ _ _ _)).
+  2:{ intros p Hp. pose proof (pos_params_kinds (d_get (fb_annotations b)) (fb_args b)
+        (length (fb_args b) - length (odflt (fb_defaults b))) (odflt (fb_defaults b))) as Kd.
+      rewrite forallb_forall in Kd. specialize (Kd p Hp). apply kind_eqb_eq in Kd.
+      unfold removable. rewrite Kd. apply andb_true_r. }
+  rewrite pos_named.
+  rewrite (existsb_olist_false (removable n)) by (intro x; unfold removable; simpl; apply andb_false_r).
+  rewrite (existsb_olist_false (removable n)) by (intro x; unfold removable; simpl; apply andb_false_r).
+  rewrite existsb_map. simpl. rewrite orb_false_r.
+  f_equal. unfold mem. apply existsb_ext_in. intros k _. unfold removable, is_named. simpl. apply andb_true_r.
+Qed.
+
+Lemma named_exists b n :
+  existsb (is_named n) (sg_params (fb_sig b)) = mem n (all_names b).
+Proof.
+  unfold fb_sig, mk_sig. cbn [sg_params]. unfold mem, all_names.
+  rewrite <- (mk_params_names (d_get (fb_annotations b)) (fb_args b) (odflt (fb_defaults b)) (fb_varargs b)
+                (fb_kwonly b) (fb_kwdefaults b) (fb_varkw b)).
+  rewrite existsb_map. reflexivity.
+Qed.
+
+Lemma has_varkw_fb b :
+  has_varkw (fb_sig b) = match fb_varkw b with Some _ => true | None => false end.
+Proof.
+  unfold has_varkw, fb_sig, mk_sig, mk_params. cbn [sg_params]. rewrite !existsb_app.
+  rewrite (proj2 (existsb_false_iff _ (pos_params _ _ _ _))).
+  2:{ intros p Hp. pose proof (pos_params_kinds (d_get (fb_annotations b)) (fb_args b)
+        (length (fb_args b) - length (odflt (fb_defaults b))) (odflt (fb_defaults b))) as Kd.
+      rewrite forallb_forall in Kd. specialize (Kd p Hp). apply kind_eqb_eq in Kd. rewrite Kd. reflexivity. }
+  rewrite (existsb_olist_false (fun p => kind_eqb (p_kind p) VarKw)) by reflexivity.
+  rewrite existsb_map. simpl.
+  rewrite (proj2 (existsb_false_iff _ (fb_kwonly b))) by reflexivity.
+  destruct (fb_varkw b); reflexivity.
+Qed.
+
+Lemma has_pos_default_fb b : length (odflt (fb_defaults b)) <= length (fb_args b) ->
+  has_pos_default (fb_sig b) = match odflt (fb_defaults b) with [] => false | _ => true end.
+Proof.
+  intro L. unfold has_pos_default, fb_sig, mk_sig, mk_params. cbn [sg_params]. rewrite !existsb_app.
+  rewrite (existsb_olist_false (fun p => kind_eqb (p_kind p) PosOrKw && _)) by reflexivity.
+  rewrite (existsb_olist_false (fun p => kind_eqb (p_kind p) PosOrKw && _)) by reflexivity.
+  rewrite (existsb_map _ _ (fb_kwonly b)). simpl.
+  rewrite (proj2 (existsb_false_iff _ (fb_kwonly b))) by reflexivity.
+  rewrite !orb_false_r.
+  pose proof (pos_params_defaults (d_get (fb_annotations b)) (fb_args b) (odflt (fb_defaults b)) L) as PD.
+  pose proof (pos_params_kinds (d_get (fb_annotations b)) (fb_args b)
+        (length (fb_args b) - length (odflt (fb_defaults b))) (odflt (fb_defaults b))) as Kd.
+  revert PD Kd. generalize (pos_params (d_get (fb_annotations b)) (fb_args b)
+        (length (fb_args b) - length (odflt (fb_defaults b))) (odflt (fb_defaults b))) as ps.
+  generalize (odflt (fb_defaults b)) as D.
+  intros D ps. revert D. induction ps as [|p r IH]; intros D PD Kd.
+  - simpl in PD. subst D. reflexivity.
+  - simpl in Kd. apply andb_true_iff in Kd as [K1 K2]. simpl. rewrite K1. simpl in PD.
+    destruct (p_default p) as [d|]; simpl in PD.
+    + subst D. reflexivity.
+    + simpl. apply IH; assumption.
+Qed.
+
+(* ---- names bookkeeping --------------------------------------------------------------------------------- *)
+Lemma NoDup_filter_app (f : nat -> bool) l1 l2 : NoDup (l1 ++ l2) -> NoDup (filter f l1 ++ l2).
+Proof.
+  intro H. apply NoDup_app_iff in H as [N1 [N2 Dj]]. apply NoDup_app_iff. repeat split.
+  - apply NoDup_filter. exact N1.
+  - exact N2.
+  - intros a Ha. apply filter_In in Ha as [Ha _]. apply Dj. exact Ha.
+Qed.
+
+Lemma filter_neq_In n x l : In x (filter (fun y => negb (Nat.eqb n y)) l) <-> In x l /\ x <> n.
+Proof.
+  rewrite filter_In, negb_true_iff, Nat.eqb_neq. split; intros [H1 H2]; split; auto.
+Qed.
+
+Definition same_meta (b b' : fbuilder) : Prop :=
+  fb_name b' = fb_name b /\ fb_doc b' = fb_doc b /\ fb_module b' = fb_module b /\
+  fb_async b' = fb_async b.
+
+Lemma same_meta_refl b : same_meta b b.
+Proof. repeat split. Qed.
+Lemma same_meta_trans a b c : same_meta a b -> same_meta b c -> same_meta a c.
+Proof. unfold same_meta. intros [? [? [? ?]]] [? [? [? ?]]]. repeat split; congruence. Qed.
+
+(* ---- remove_arg ------------------------------------------------------------------------------------------- *)
+Lemma remove_arg_pos b n args' : good b -> list_remove n (fb_args b) = Some args' ->
+  exists b', remove_arg b n = Ok b' /\ good b' /\ fb_sig b' = sig_remove n (fb_sig b) /\
+             same_meta b b' /\ fb_varkw b' = fb_varkw b.
+Proof.
+  intros G LR. unfold remove_arg. rewrite LR. eexists. split; [reflexivity|].
+  destruct G as [ND NZ L KI KN AN AI].
+  set (an := d_get (fb_annotations b)). set (an' := d_get (d_del (fb_annotations b) n)).
+  set (args := fb_args b) in *. set (D := odflt (fb_defaults b)) in *.
+  set (kwd := fb_kwdefaults b) in *.
+  unfold all_names in ND, NZ, AI. fold args in ND, NZ, AI.
+  assert (NDa : NoDup args) by (apply NoDup_app_l in ND; exact ND).
+  destruct (list_remove_filter n args args' NDa LR) as [Hn EA].
+  assert (Hne : forall x, In x (olist (fb_varargs b) ++ fb_kwonly b ++ olist (fb_varkw b)) -> x <> n).
+  { intros x Hx E. subst x. exact (NoDup_app_disj _ _ n ND Hn Hx). }
+  assert (Hn0 : n <> 0) by (intro E; apply NZ; apply in_or_app; left; rewrite <- E; exact Hn).
+  assert (AN' : forall x, x <> n -> an' x = an x) by (intros x Hx; apply d_get_d_del_other; exact Hx).
+  assert (Ha' : forall a, In a args' -> a <> n) by (intros a Ha; rewrite EA in Ha; apply filter_neq_In in Ha; tauto).
+  destruct (pos_params_remove an an' args D kwd n args' NDa L) as [L' EP].
+  { intros a Ha Hk. apply KI in Hk. apply (NoDup_app_disj _ _ a ND Ha).
+    apply in_or_app. right. apply in_or_app. left. exact Hk. }
+  { exact LR. }
+  { intros a Ha. apply AN'. apply Ha'. exact Ha. }
+  cbv zeta in L', EP.
+  split; [|split; [|split; [repeat split | reflexivity]]].
+  - (* good *)
+    constructor; unfold all_names; cbn [fb_args fb_varargs fb_kwonly fb_varkw fb_defaults fb_kwdefaults fb_annotations odflt].
+    + rewrite EA. apply NoDup_filter_app. exact ND.
+    + intro H0. apply NZ. apply in_app_or in H0 as [H0|H0]; apply in_or_app; [left|right; exact H0].
+      rewrite EA in H0. apply filter_In in H0. tauto.
+    + exact L'.
+    + exact KI.
+    + exact KN.
+    + apply d_del_nodup. exact AN.
+    + intros x Hx. assert (Hxn : x <> n) by (intro E; subst x; exact (d_del_key_gone _ _ AN Hx)).
+      apply d_del_keys_incl in Hx. destruct (AI x Hx) as [E|Hin]; [left; exact E | right].
+      apply in_app_or in Hin as [Hin|Hin]; apply in_or_app; [left | right; exact Hin].
+      rewrite EA. apply filter_neq_In. split; assumption.
+  - (* the signature *)
+    unfold fb_sig, sig_remove, mk_sig. cbn [fb_args fb_varargs fb_kwonly fb_varkw fb_defaults fb_kwdefaults fb_annotations odflt sg_params sg_ret].
+    fold an an' args D kwd. f_equal; [|apply AN'; exact (not_eq_sym Hn0)].
+    unfold mk_params. rewrite !filter_app. f_equal; [|f_equal; [|f_equal]].
+    + unfold get_defaults_dict in *. fold args D kwd. rewrite EP.
+      apply filter_ext_in'. intros p Hp.
+      pose proof (pos_params_kinds an args (length args - length D) D) as Kd.
+      rewrite forallb_forall in Kd. specialize (Kd p Hp). apply kind_eqb_eq in Kd.
+      unfold removable, is_named. rewrite Kd, andb_true_r. reflexivity.
+    + rewrite filter_true by (intros p Hp; apply in_map_iff in Hp as [x [<- _]]; unfold removable; simpl; rewrite andb_false_r; reflexivity).
+      apply map_ext_in. intros x Hx. rewrite AN'; [reflexivity|]. apply Hne. apply in_or_app. left. exact Hx.
+    + rewrite filter_true.
+      * apply map_ext_in. intros x Hx. rewrite AN'; [reflexivity|]. apply Hne. apply in_or_app. right. apply in_or_app. left. exact Hx.
+      * intros p Hp. apply in_map_iff in Hp as [x [<- Hx]]. unfold removable, is_named. simpl. rewrite andb_true_r.
+        apply negb_true_iff. apply Nat.eqb_neq. apply not_eq_sym. apply Hne. apply in_or_app. right. apply in_or_app. left. exact Hx.
+    + rewrite filter_true by (intros p Hp; apply in_map_iff in Hp as [x [<- _]]; unfold removable; simpl; rewrite andb_false_r; reflexivity).
+      apply map_ext_in. intros x Hx. rewrite AN'; [reflexivity|]. apply Hne. apply in_or_app. right. apply in_or_app. right. exact Hx.
+Qed.
+
+Lemma remove_arg_kw b n kwonly' : good b ->
+  list_remove n (fb_args b) = None -> list_remove n (fb_kwonly b) = Some kwonly' ->
+  exists b', remove_arg b n = Ok b' /\ good b' /\ fb_sig b' = sig_remove n (fb_sig b) /\
+             same_meta b b' /\ fb_varkw b' = fb_varkw b.
+Proof.
+  intros G LA LK. unfold remove_arg. rewrite LA, LK. eexists. split; [reflexivity|].
+  destruct G as [ND NZ L KI KN AN AI].
+  set (an := d_get (fb_annotations b)). set (an' := d_get (d_del (fb_annotations b) n)).
+  set (args := fb_args b) in *. set (D := odflt (fb_defaults b)) in *.
+  set (kwd := fb_kwdefaults b) in *. set (kwonly := fb_kwonly b) in *.
+  unfold all_names in ND, NZ, AI. fold args kwonly in ND, NZ, AI.
+  assert (NDk : NoDup kwonly).
+  { apply NoDup_app_r in ND. apply NoDup_app_r in ND. apply NoDup_app_l in ND. exact ND. }
+  destruct (list_remove_filter n kwonly kwonly' NDk LK) as [Hn EK].
+  apply list_remove_none in LA.
+  assert (NDvk : NoDup (olist (fb_varargs b) ++ kwonly ++ olist (fb_varkw b))) by (apply NoDup_app_r in ND; exact ND).
+  assert (Hva : forall x, In x (olist (fb_varargs b)) -> x <> n).
+  { intros x Hx E. subst x. apply (NoDup_app_disj _ _ n NDvk Hx). apply in_or_app. left. exact Hn. }
+  assert (Hvk : forall x, In x (olist (fb_varkw b)) -> x <> n).
+  { intros x Hx E. subst x. apply NoDup_app_r in NDvk. exact (NoDup_app_disj _ _ n NDvk Hn Hx). }
+  assert (Hn0 : n <> 0).
+  { intro E. apply NZ. apply in_or_app. right. apply in_or_app. right. apply in_or_app. left. rewrite <- E. exact Hn. }
+  assert (AN' : forall x, x <> n -> an' x = an x) by (intros x Hx; apply d_get_d_del_other; exact Hx).
+  assert (Haa : forall a, In a args -> a <> n) by (intros a Ha E; subst a; contradiction).
+  split; [|split; [|split; [repeat split | reflexivity]]].
+  - constructor; unfold all_names; cbn [fb_args fb_varargs fb_kwonly fb_varkw fb_defaults fb_kwdefaults fb_annotations].
+    + fold args. rewrite EK.
+      apply NoDup_app_iff in ND as [N1 [N2 Dj]]. apply NoDup_app_iff. repeat split; [exact N1| |].
+      * apply NoDup_app_iff in N2 as [M1 [M2 Dj2]]. apply NoDup_app_iff. repeat split; [exact M1| |].
+        -- apply NoDup_filter_app. exact M2.
+        -- intros a Ha Hb. apply (Dj2 a Ha). apply in_app_or in Hb as [Hb|Hb]; apply in_or_app; [left|right; exact Hb].
+           apply filter_In in Hb. tauto.
+      * intros a Ha Hb. apply (Dj a Ha). apply in_app_or in Hb as [Hb|Hb]; apply in_or_app; [left; exact Hb|right].
+        apply in_app_or in Hb as [Hb|Hb]; apply in_or_app; [left|right; exact Hb]. apply filter_In in Hb. tauto.
+    + fold args. intro H0. apply NZ. apply in_app_or in H0 as [H0|H0]; apply in_or_app; [left; exact H0|right].
+      apply in_app_or in H0 as [H0|H0]; apply in_or_app; [left; exact H0|right].
+      apply in_app_or in H0 as [H0|H0]; apply in_or_app; [left|right; exact H0].
+      rewrite EK in H0. apply filter_In in H0. tauto.
+    + exact L.
+    + intros x Hx. assert (Hxn : x <> n) by (intro E; subst x; exact (d_del_key_gone _ _ KN Hx)).
+      apply d_del_keys_incl in Hx. rewrite EK. apply filter_neq_In. split; [apply KI; exact Hx | exact Hxn].
+    + apply d_del_nodup. exact KN.
+    + apply d_del_nodup. exact AN.
+    + fold args. intros x Hx. assert (Hxn : x <> n) by (intro E; subst x; exact (d_del_key_gone _ _ AN Hx)).
+      apply d_del_keys_incl in Hx. destruct (AI x Hx) as [E|Hin]; [left; exact E | right].
+      apply in_app_or in Hin as [Hin|Hin]; apply in_or_app; [left; exact Hin | right].
+      apply in_app_or in Hin as [Hin|Hin]; apply in_or_app; [left; exact Hin | right].
+      apply in_app_or in Hin as [Hin|Hin]; apply in_or_app; [left | right; exact Hin].
+      rewrite EK. apply filter_neq_In. split; assumption.
+  - unfold fb_sig, sig_remove, mk_sig. cbn [fb_args fb_varargs fb_kwonly fb_varkw fb_defaults fb_kwdefaults fb_annotations sg_params sg_ret].
+    fold an an' args D kwd kwonly. f_equal; [|apply AN'; exact (not_eq_sym Hn0)].
+    unfold mk_params. rewrite !filter_app. f_equal; [|f_equal; [|f_equal]].
+    + rewrite filter_true.
+      * apply pos_params_ext. intros a Ha. apply AN'. apply Haa. exact Ha.
+      * intros p Hp. unfold removable, is_named.
+        assert (In (p_name p) args) by (rewrite <- (pos_params_names an args (length args - length D) D); apply in_map; exact Hp).
+        replace (Nat.eqb n (p_name p)) with false; [reflexivity|].
+        symmetry. apply Nat.eqb_neq. apply not_eq_sym. apply Haa. assumption.
+    + rewrite filter_true by (intros p Hp; apply in_map_iff in Hp as [x [<- _]]; unfold removable; simpl; rewrite andb_false_r; reflexivity).
+      apply map_ext_in. intros x Hx. rewrite AN'; [reflexivity|]. apply Hva. exact Hx.
+    + rewrite filter_map_comm. rewrite EK.
+      rewrite (filter_ext_in' (fun x => negb (removable n (mkP x KwOnly (d_get kwd x) (an x))))
+                              (fun y => negb (Nat.eqb n y)) kwonly)
+        by (intros x _; unfold removable, is_named; simpl; rewrite andb_true_r; reflexivity).
+      apply map_ext_in. intros x Hx. apply filter_neq_In in Hx as [_ Hx].
+      rewrite AN' by exact Hx. rewrite (d_get_d_del_other kwd n x Hx). reflexivity.
+    + rewrite filter_true by (intros p Hp; apply in_map_iff in Hp as [x [<- _]]; unfold removable; simpl; rewrite andb_false_r; reflexivity).
+      apply map_ext_in. intros x Hx. rewrite AN'; [reflexivity|]. apply Hvk. exact Hx.
+Qed.
+
+Lemma remove_arg_missing b n :
+  list_remove n (fb_args b) = None -> list_remove n (fb_kwonly b) = None ->
+  remove_arg b n = Raise ValueError /\ existsb (removable n) (sg_params (fb_sig b)) = false.
+Proof.
+  intros LA LK. split.
+  - unfold remove_arg. rewrite LA, LK. reflexivity.
+  - rewrite removable_exists. apply list_remove_none in LA. apply list_remove_none in LK.
+    apply mem_false in LA. apply mem_false in LK. rewrite LA, LK. reflexivity.
+Qed.
+
+Lemma list_remove_some_mem n l l' : list_remove n l = Some l' -> mem n l = true.
+Proof.
+  intro H. destruct (mem n l) eqn:E; [reflexivity|]. apply mem_false in E. apply list_remove_none in E. congruence.
+Qed.
+
+(* remove_args runs in lock-step with spec_injects *)
+Lemma remove_args_refines inj : forall b, good b ->
+  match remove_args b inj, spec_injects inj (fb_sig b) with
+  | Ok b', Ok s' => good b' /\ fb_sig b' = s' /\ same_meta b b'
+  | Raise _, Raise _ => True
+  | _, _ => False
+  end.
+Proof.
+  induction inj as [|n r IH]; intros b G.
+  - simpl. split; [exact G | split; [reflexivity | apply same_meta_refl]].
+  - cbn [remove_args spec_injects]. unfold spec_inject.
+    destruct (list_remove n (fb_args b)) as [args'|] eqn:LA.
+    + destruct (remove_arg_pos b n args' G LA) as [b' [E [G' [S [M V]]]]].
+      rewrite E, removable_exists, (list_remove_some_mem _ _ _ LA). simpl. rewrite <- S.
+      specialize (IH b' G'). destruct (remove_args b' r), (spec_injects r (fb_sig b')); try exact IH.
+      destruct IH as [? [? ?]]. split; [assumption | split; [assumption | eapply same_meta_trans; eassumption]].
+    + destruct (list_remove n (fb_kwonly b)) as [kwonly'|] eqn:LK.
+      * destruct (remove_arg_kw b n kwonly' G LA LK) as [b' [E [G' [S [M V]]]]].
+        rewrite E, removable_exists, (list_remove_some_mem _ _ _ LK), orb_true_r. rewrite <- S.
+        specialize (IH b' G'). destruct (remove_args b' r), (spec_injects r (fb_sig b')); try exact IH.
+        destruct IH as [? [? ?]]. split; [assumption | split; [assumption | eapply same_meta_trans; eassumption]].
+      * destruct (remove_arg_missing b n LA LK) as [E X]. rewrite E, X, has_varkw_fb.
+        destruct (fb_varkw b); [apply IH; exact G | exact I].
+Qed.
